@@ -19,6 +19,8 @@ type recUnpub struct {
 	deletes  int
 	PutErr   func(call int) error
 	DelErr   func(call int) error
+	// BySuffix: a store keyed by DID suffix (one pending entry per DID): Delete removes the entry of the operation's DID
+	BySuffix bool
 }
 
 func (s *recUnpub) Put(op *operation.AnchoredOperation) error {
@@ -45,7 +47,7 @@ func (s *recUnpub) Delete(op *operation.AnchoredOperation) error {
 		}
 	}
 	for i, o := range s.ops {
-		if o.UniqueSuffix == op.UniqueSuffix && string(o.OperationRequest) == string(op.OperationRequest) {
+		if o.UniqueSuffix == op.UniqueSuffix && (s.BySuffix || string(o.OperationRequest) == string(op.OperationRequest)) {
 			s.ops = append(s.ops[:i], s.ops[i+1:]...)
 			s.deletes++
 			return nil
